@@ -14,10 +14,10 @@ META = dict(
     functions=["wavetheory.lineardispersion.inverse_intrinsic_dispersion_relation", "intrinsic_dispersion_relation",
                "phase_velocity", "ratio_group_velocity_to_phase_velocity", "intrinsic_group_velocity",
                "WaveSpectrum.depth/wavenumber/group_velocity/wavelength/wave_speed"],
-    bounds=dict(quick="Newton loop unrolled for maximum_number_of_iterations in {0,1,2}, arrays of 2 elements with "
+    bounds=dict(quick="Newton loop unrolled for maximum_number_of_iterations in {0,1} (thorough 2), arrays of 2 elements with "
                       "independent symbolic (omega, depth) (so regimes can be mixed in one call), symbolic positive "
                       "omega/depth; group velocity for symbolic k, d; spectrum glue for dims (), (time=2), (time,lat)",
-                thorough="maximum_number_of_iterations 3"),
+                thorough="maximum_number_of_iterations 2"),
     outside=["that the iteration converges within 10 steps on [3e-3,50] x [1e-2,1e4] (needs validated transcendental "
              "arithmetic; no delta-complete solver is installed): stated not applicable", "k > 0, monotonicity in omega "
              "and depth and the deep/shallow asymptotes of the converged root", "infinite depth as a symbolic input "
@@ -96,14 +96,43 @@ def case_newton(ctx, maxiter):
         errs = [_disp(ctx, k[j], d[j]) - w[j] for j in range(2)]
         ctx.check(ctx.Or(*[ctx.le(tolc, abs(errs[j]) / w[j]) for j in range(2)]),
                   "D-PC.notconverged", info="the non-convergence message is only printed when the tolerance is not met")
-    if maxiter == 1:
-        for j in range(2):
-            deep = w[j] > ctx.sqrt(G / d[j])
-            k0 = ctx.ite(deep, w[j] * w[j] / G, w[j] / ctx.sqrt(G * d[j])) if ctx.mode == "sym" else (
-                w[j] * w[j] / G if deep else w[j] / math.sqrt(G * d[j]))
-            step = k0 - (_disp(ctx, k0, d[j]) - w[j]) / _cg_ref(ctx, w[j], k0, d[j])
-            ctx.check(ctx.eq(k[j], step), "D-PC.step", info="k1 = k0 - error/(n(k0 d) omega / k0)", div_uf=True)
-    ctx.observe("k", np.asarray(k))
+
+
+def case_newton_concrete(ctx, w, d, maxiter=10):
+    """regime-mixing concrete witnesses run through the same harness (all arithmetic constant-folded; the symbolic
+    cases cannot make z3 find such inputs because tanh/sqrt are uninterpreted there)"""
+    rec = []
+    LD = _ld(ctx, rec)
+    wv, dv = ctx.const(np.array(w, dtype=float)), ctx.const(np.array(d, dtype=float))
+    k = LD.inverse_intrinsic_dispersion_relation(wv, dv, G, maxiter, 1e-3)
+    tolc = ctx.const(1e-3)
+    ctx.reach("D-PC.witness")
+    if not rec:
+        for j in range(len(w)):
+            err = _disp(ctx, k[j], dv[j]) - wv[j]
+            ctx.check(ctx.lt(abs(err) / wv[j], tolc), "D-PC.witness",
+                      info=dict(element=j, omega=w[j], depth=d[j], what="converged exit: relative residual < 1e-3"))
+    else:
+        ctx.check(maxiter < 10, "D-PC.witness.convergence", info="the full 10-iteration solve converges on this witness")
+
+
+def case_newton_step(ctx, deep, kdbig):
+    """one Newton step for a single element in a fixed regime (deep/shallow first guess, kd above/below 5):
+    k1 = k0 - (sqrt(g k0 tanh(k0 d)) - omega) / (n(k0 d) omega / k0)"""
+    rec = []
+    LD = _ld(ctx, rec)
+    w, d = _inputs(ctx, 1)
+    isdeep = w[0] > ctx.sqrt(G / d[0])
+    ctx.assume(isdeep if deep else ctx.Not(isdeep))
+    k0 = w[0] * w[0] / G if deep else w[0] / ctx.sqrt(G * d[0])
+    big = k0 * d[0] > 5
+    ctx.assume(big if kdbig else ctx.Not(big))
+    k = LD.inverse_intrinsic_dispersion_relation(w, d, G, 1, 1e-3)
+    n = ctx.frac(1, 2) if kdbig else (ctx.frac(1, 2) + k0 * d[0] / ctx.sinh(2 * (k0 * d[0])))
+    step = k0 - (_disp(ctx, k0, d[0]) - w[0]) / (n * w[0] / k0)
+    ctx.reach("D-PC.step")
+    ctx.check(ctx.implies(ctx.Not(ctx.isnan(k[0])), ctx.eq_value(k[0], step)), "D-PC.step",
+              info=dict(deep=deep, kd_gt_5=kdbig, what="k1 = k0 - error / (n(k0 d) omega / k0)"), div_uf=True)
 
 
 def case_group_velocity(ctx):
@@ -190,10 +219,9 @@ def _stub(fin, deep):
 def case_spectrum_glue(ctx, layout):
     """wavenumber / group velocity / wavelength / wave speed arrays are the functions evaluated at (2 pi f, depth_p),
     missing depth meaning deep water"""
-    if ctx.mode != "sym":
-        return
     C.shim_modules(ctx)
     import ocean_science_utilities.wavespectra.spectrum as S
+    import ocean_science_utilities.wavetheory.lineardispersion as LDr
     nf = 2
     f = C.freq_grid(ctx, "uniform", nf)
     shp = C.layout_shape(layout)
@@ -201,15 +229,16 @@ def case_spectrum_glue(ctx, layout):
     e = ctx.reals("e", shp + (nf,))
     dv = [ctx.real(f"dep{i}") for i in range(npts)]
     for x in dv:
-        ctx.assume(ctx.lt(0, x))
+        ctx.assume(ctx.lt(ctx.frac(1, 100), x))
     if npts > 1:
         dv[-1] = float("nan")     # missing depth
     if npts > 2:
         dv[0] = np.inf
-    depth = np.array(dv, dtype=object).reshape(shp) if shp else dv[0]
+    depth = np.array(dv, dtype=object if ctx.mode == "sym" else float).reshape(shp) if shp else dv[0]
     s = C.make_1d(ctx, f, e, layout, depth=depth if shp else depth)
-    ctx.patch(S, "inverse_intrinsic_dispersion_relation", _stub(KU, KUD))
-    ctx.patch(S, "intrinsic_group_velocity", _stub(CGU, CGD))
+    if ctx.mode == "sym":
+        ctx.patch(S, "inverse_intrinsic_dispersion_relation", _stub(KU, KUD))
+        ctx.patch(S, "intrinsic_group_velocity", _stub(CGU, CGD))
     k = np.asarray(ctx.noraise("D-BC.raise", lambda: s.wavenumber).values).reshape(npts, nf)
     cg = np.asarray(ctx.noraise("D-BC.raise", lambda: s.group_velocity).values).reshape(npts, nf)
     wl = np.asarray(s.wavelength.values).reshape(npts, nf)
@@ -220,9 +249,14 @@ def case_spectrum_glue(ctx, layout):
         deep = core._is_nan_float(dpt) or (isinstance(dpt, float) and math.isinf(dpt))
         for i in range(nf):
             w = f[i] * twopi
-            kref = SR(KUD(core.zt(w))) if deep else SR(KU(core.zt(w), core.zt(dpt)))
+            if ctx.mode == "sym":
+                kref = SR(KUD(core.zt(w))) if deep else SR(KU(core.zt(w), core.zt(dpt)))
+                cref = SR(CGD(core.zt(kref))) if deep else SR(CGU(core.zt(kref), core.zt(dpt)))
+            else:
+                dd = np.inf if deep else float(dpt)
+                kref = LDr.inverse_intrinsic_dispersion_relation(np.array([w]), np.array([dd]))[0]
+                cref = LDr.intrinsic_group_velocity(np.array([kref]), np.array([dd]))[0]
             ctx.check(ctx.eq(k[p, i], kref), "D-BC.wavenumber", info=dict(point=p, f=i, deep=deep))
-            cref = SR(CGD(core.zt(kref))) if deep else SR(CGU(core.zt(kref), core.zt(dpt)))
             ctx.check(ctx.eq(cg[p, i], cref), "D-BC.group_velocity", info=dict(point=p, f=i))
             ctx.check(ctx.eq(wl[p, i] * kref, twopi), "D-BC.wavelength", abstract=[kref], info="wavelength = 2 pi / k")
             ctx.check(ctx.eq(ws[p, i] * kref, w), "D-BC.wave_speed", abstract=[kref], info="wave speed = omega / k")
@@ -237,9 +271,20 @@ def cases(tier):
         cs.append(dict(name=name, fn=f"props.c07:{fn}", kwargs=kw, opts=opts or {}))
 
     add("case_first_guess", "first_guess")
-    for m in ([1, 2] if q else [1, 2, 3]):
-        add("case_newton", f"newton_maxiter{m}", maxiter=m, opts=dict(weight=10 ** m, case_timeout_s=280 if q else 1500,
+    for m in ([1] if q else [1, 2]):
+        add("case_newton", f"newton_maxiter{m}", maxiter=m, opts=dict(weight=10 ** m, case_timeout_s=280 if q else 3000,
                                                                    check_timeout_ms=20000))
+    for deep in (True, False):
+        for big in (True, False):
+            if big and not deep:
+                continue   # the shallow first guess has k0 d = omega sqrt(d/g) <= 1: the kd>5 branch is unreachable
+            add("case_newton_step", f"newton_step_{'deep' if deep else 'shallow'}_{'kdgt5' if big else 'kdle5'}",
+                deep=deep, kdbig=big, opts=dict(check_timeout_ms=20000))
+    wit = [([2.0, 1.0], [1000.0, 1.5], 1), ([2.0, 1.0], [1000.0, 1.5], 10),
+           ([0.3141592653589793, 6.283185307179586], [90.0, 10000.0], 10),
+           ([0.3, 1.0, 3.0, 0.05], [5.0, 20.0, 100.0, 0.5], 10), ([0.02, 40.0], [3000.0, 0.02], 10)]
+    for i, (w_, d_, m_) in enumerate(wit):
+        add("case_newton_concrete", f"newton_witness_{i}", w=w_, d=d_, maxiter=m_, opts=dict(fold_sqrt=True, validate=0))
     add("case_group_velocity", "group_velocity")
     add("case_cg_identity", "cg_identity")
     add("case_cg_deep", "cg_deep")
